@@ -5,7 +5,7 @@
 namespace vf {
 
 struct SweepRec { int state; long long info; unsigned long long digest; int flags; int glu_exp; };   // state: 0 not run, 1 running, 2 done
-enum { FL_ABORT = 1, FL_CANARY = 2, FL_STRUCT = 4, FL_IDENT = 8, FL_LEAK = 16 };
+enum { FL_ABORT = 1, FL_CANARY = 2, FL_STRUCT = 4, FL_IDENT = 8, FL_LEAK = 16, FL_STACK = 32 };
 
 // Run the factorization for every length in `lens` inside forked children; a crash or hang at one length is recorded
 // and the sweep continues with the next length.
@@ -29,7 +29,7 @@ static void sweep(const FactorProblem<T> &P, const std::vector<long> &lens, cons
                 StorageCfg cf; cf.fill = fill; cf.lwork = lens[i]; cf.misalign = mis[i]; cf.workfill = workfill;
                 FactorOutcome o = factor_once<T>(P, cf, heapfill, true);
                 shm[i].info = o.info; shm[i].digest = o.digest; shm[i].glu_exp = o.glu_exp;
-                shm[i].flags = (o.aborted ? FL_ABORT : 0) | (!o.canary_ok ? FL_CANARY : 0) | (!o.structure_ok ? FL_STRUCT : 0) | (!o.identity_ok ? FL_IDENT : 0) | (o.leak ? FL_LEAK : 0);
+                shm[i].flags = (o.aborted ? FL_ABORT : 0) | (!o.canary_ok ? FL_CANARY : 0) | (!o.structure_ok ? FL_STRUCT : 0) | (!o.identity_ok ? FL_IDENT : 0) | (o.leak ? FL_LEAK : 0) | (o.stack_overlap ? FL_STACK : 0);
                 shm[i].state = 2;
             }
             _exit(0);
@@ -119,6 +119,7 @@ template <class T> static void run_factor(Choice &c, Ctx &cx)
         const SweepRec &r = recs[i];
         if (r.state != 2) continue;
         if (r.flags & FL_ABORT) { cx.fail("abort", where(i) + ": the library called ABORT instead of returning info > n"); return; }
+        if (r.flags & FL_STACK) { cx.fail("workspace-stack-overlap", where(i) + ": the factor arrays growing from the head of work[] ran into the work arrays at its tail (GlobalLU_t::stack.top1 + work arrays > size at return)"); return; }
         if (r.flags & FL_CANARY) { cx.fail("workspace-overrun", where(i) + ": a byte outside [work, work+lwork) was written"); return; }
         if (r.info > n && i == generous && !(ref.info > n)) { cx.fail("shortage-in-generous-workspace", where(i) + fmt(": info=%lld (shortage) although the estimate is %ld, the measured requirement %ld and library allocation succeeds", r.info, est, (long)ref.for_lu + tail_true)); return; }
         if (r.info > n) { ++shortage; if (r.glu_exp >= 1) ++short_after_growth; if ((r.flags & FL_LEAK)) { if (cx.is_known("F16")) cx.exclude("F16"); else { cx.fail("leak", where(i) + fmt(": info=%lld (shortage) but library allocations were left behind", r.info)); return; } } continue; }
@@ -284,7 +285,8 @@ template <class T> static void run_reuse(Choice &c, Ctx &cx)
     cx.nontrivial = refactored > 0 || shortage_at >= 0;
 }
 
-template <class T> static void run_T(Choice &c, Ctx &cx) { unsigned k = c.below(256); if (k < 70) run_query<T>(c, cx); else if (k < 110) run_reuse<T>(c, cx); else run_factor<T>(c, cx); }
+// (first byte >= 186: query, as before the re-use mode existed, so that saved replays keep their meaning; 146..185: re-use)
+template <class T> static void run_T(Choice &c, Ctx &cx) { unsigned k = c.u8(); if (k >= 186) run_query<T>(c, cx); else if (k >= 146) run_reuse<T>(c, cx); else run_factor<T>(c, cx); }
 
 static void run(char type, Choice &c, Ctx &cx)
 {
